@@ -16,7 +16,7 @@
    from the running code). *)
 From V Require Import Model.Base Model.Gsm7 Model.Splitter Model.Compose Gen.Widths
   Model.IntervalMap Gen.Charsets Model.Charset Model.ComposeText
-  Proofs.Gsm7Proofs Proofs.SplitterProofs Proofs.ComposeProofs Proofs.ComposeInst Proofs.CharsetRoundtrip Proofs.ComposeText.
+  Proofs.Gsm7Proofs Proofs.SplitterProofs Proofs.ComposeProofs Proofs.ComposeInst Proofs.CharsetRoundtrip Proofs.ComposeText Proofs.TablesAgree.
 Open Scope nat_scope.
 Local Notation length := List.length.
 Local Notation concat := List.concat.
@@ -168,8 +168,9 @@ Proof. exact compose_cs_total. Qed.
 
 (* the two independent dumps of the encoders agree (Gen/Widths.v octet counts = length of the octets in Gen/Charsets.v, every
    scalar value, accepted sets equal), hence the length-only encoder of compose_len is the length of what compose_cs encodes.
-   C07_tables_agree_partial: proved for the four single-octet charsets; the same kernel check holds for Shift-JIS, EUC-JP,
-   EUC-KR (run once: 5 min 46 s) but is left out of the build for time - see Proofs/ComposeText.v. *)
+   C07_tables_agree_partial: the point-by-point check, in the build for the four single-octet charsets only (5 min 46 s for
+   Shift-JIS, EUC-JP, EUC-KR).  SUPERSEDED by C07_tables_agree at the end of this file (run-wise check, all eight stateless
+   table codings); kept because it is an independent checker for the four small tables. *)
 Theorem C07_tables_agree_partial : forall c, single_octet c -> forall t,
   match enc_len_stateless (wd_of c) t, encode c t with
   | Ok n, Ok bs => n = length bs
@@ -198,3 +199,35 @@ Example C07_example_cs_roundtrip :
   let t := (rep 70 26085 ++ [97] ++ rep 70 26412)%N in
   match compose_cs CSjis 255 t with Ok l => decode_parts CSjis l = Ok t /\ length l = 3 | _ => False end.
 Proof. vm_compute. split; reflexivity. Qed.
+
+(* ---- C07_tables_agree, COMPLETE (round 7, builder textproof): Gen/Widths.v and Gen/Charsets.v - two dumps of the same
+        encoders by different dumpers - agree for ALL EIGHT stateless table codings (ASCII, Latin-1, Cyrillic, Hebrew, UCS-2,
+        Shift-JIS, EUC-JP, EUC-KR), at every scalar value: a value is accepted in one table iff it is in the other, and the octet
+        count recorded in Gen/Widths.v is the length of the octets recorded in Gen/Charsets.v.  Run-wise kernel check
+        (Proofs/TablesAgree.v: one linear merge over the two ascending run lists comparing run boundaries and per-run octet
+        counts; < 4 s for the eight tables instead of 5 min 46 s point by point).  Hence the length-only encoder of compose_len
+        is the length of what compose_cs encodes, for every text.
+        ISO-2022-JP is outside by nature: its encoder is stateful (Model/Charset.v encode_jp over a 5-column table), and
+        wd_iso2022jp records the length of the one-character TEXT including escape sequences; there the tie between
+        compose_len and compose_cs stays the generated cases. ---- *)
+Theorem C07_tables_agree_rune : forall c, c <> CIso2022jp -> forall r,
+  match wd_find r (wd_of c), enc_rune_t (enc_runs c) r with
+  | Some (n, _), Some b => N.of_nat (length b) = n
+  | None, None => True
+  | _, _ => False
+  end.
+Proof. exact tables_agree_table. Qed.
+Theorem C07_tables_agree : forall c, c <> CIso2022jp -> forall t,
+  match enc_len_stateless (wd_of c) t, encode c t with
+  | Ok n, Ok bs => n = length bs
+  | Err _, Err _ => True
+  | _, _ => False
+  end.
+Proof. exact enc_len_is_length_table. Qed.
+(* U+65E5: two octets in both Shift-JIS tables; the euro sign in neither; U+4E02: three octets in both EUC-JP tables *)
+Example C07_tables_agree_examples :
+  wd_find 26085%N wd_shiftjis = Some (2, 16)%N /\ enc_rune_t enc_runs_sjis 26085%N = Some [147; 250]%N /\
+  wd_find 8364%N wd_shiftjis = None /\ enc_rune_t enc_runs_sjis 8364%N = None /\
+  option_map fst (wd_find 19970%N wd_eucjp) = Some 3%N /\ option_map (@length N) (enc_rune_t enc_runs_eucjp 19970%N) = Some 3 /\
+  enc_len_stateless wd_euckr [44032; 97]%N = Ok 3.
+Proof. exact tables_agree_examples. Qed.
